@@ -21,7 +21,7 @@ Inputs == IF Part = "match" THEN AllSeqsUpTo(Alphabet, MaxLen) \cup UNION {Edits
           ELSE AllSeqsUpTo({"a", "b", "SP", "A", "1"}, MaxLen)
 
 Base == [acceptAny |-> FALSE, acceptNonempty |-> FALSE, minLength |-> 0, minWords |-> 0, explainMin |-> "err",
-         pattern |-> [k |-> "none"], explainVal |-> "err"]
+         pattern |-> [k |-> "none"], explainVal |-> "err", debug |-> FALSE]
 With(r, k, v) == [x \in DOMAIN r \cup {k} |-> IF x = k THEN v ELSE r[x]]
 
 \* ---- patterns (rendered to Python regular expressions by the adapter; ids are stable names)
@@ -40,22 +40,25 @@ FlagSubset == { [cs |-> TRUE, strip |-> TRUE, stripAll |-> FALSE, cleanSpaces |-
 
 \* the case space of each part as a record of field |-> set of values
 SpaceMatch == [kind |-> {"match"}, f |-> Flags, expect |-> Expects, pid |-> {"none"},
-               any |-> {FALSE}, nonempty |-> {FALSE}, minLength |-> {0}, minWords |-> {0}, explainMin |-> {"err"}, explainVal |-> {"err"}]
+               any |-> {FALSE}, nonempty |-> {FALSE}, minLength |-> {0}, minWords |-> {0}, explainMin |-> {"err"}, explainVal |-> {"err"},
+               debug |-> {FALSE}]
 SpaceAny == [kind |-> {"any"}, f |-> FlagSubset, expect |-> {<<>>}, pid |-> {"none"},
              any |-> BOOLEAN, nonempty |-> BOOLEAN, minLength |-> {0, 1, 3}, minWords |-> 0..2,
-             explainMin |-> {"err", "msg", "none"}, explainVal |-> {"err"}]
+             explainMin |-> {"err", "msg", "none"}, explainVal |-> {"err"}, debug |-> BOOLEAN]
 SpacePattern == [kind |-> {"pattern"}, f |-> FlagSubset, expect |-> {<<"a", "b">>, <<"a">>, <<"b", "SP", "a">>}, pid |-> PatternIds,
                  any |-> BOOLEAN, nonempty |-> {FALSE}, minLength |-> {0, 2}, minWords |-> {0}, explainMin |-> {"err", "none"},
-                 explainVal |-> {"err", "msg", "none"}]
+                 explainVal |-> {"err", "msg", "none"}, debug |-> BOOLEAN]
 Space == IF Part = "match" THEN SpaceMatch ELSE IF Part = "any" THEN SpaceAny ELSE SpacePattern
 CasesFor(f, e) == {x \in [kind : Space.kind, f : {f}, expect : {e}, input : Inputs, pid : Space.pid, any : Space.any,
                           nonempty : Space.nonempty, minLength : Space.minLength, minWords : Space.minWords,
-                          explainMin : Space.explainMin, explainVal : Space.explainVal] :
-                     Part = "any" => (x.any \/ x.nonempty)}
+                          explainMin : Space.explainMin, explainVal : Space.explainVal, debug : Space.debug] :
+                     /\ Part = "any" => (x.any \/ x.nonempty)
+                     /\ x.debug => Len(x.input) <= 2}          \* the debug switch only with short submissions (size of the model)
 
 CfgOf(c) == [f |-> c.f, acceptAny |-> c.any, acceptNonempty |-> c.nonempty, minLength |-> c.minLength,
              minWords |-> c.minWords, explainMin |-> c.explainMin,
-             pattern |-> IF c.pid = "none" THEN [k |-> "none"] ELSE Patterns[c.pid], explainVal |-> c.explainVal]
+             pattern |-> IF c.pid = "none" THEN [k |-> "none"] ELSE Patterns[c.pid], explainVal |-> c.explainVal,
+             debug |-> c.debug]
 
 \* Two-level enumeration so that all TLC workers share the work: seeds fix (flags, expected), one Next step per case.
 VARIABLES c, out
